@@ -132,11 +132,12 @@ def coq_makefile():
         run(["coq_makefile", "-f", "_CoqProject", "-o", "Makefile"], cwd=COQ, check=True)
 
 
-def coq_make(targets, timeout=1500):
+def coq_make(targets, timeout=1500, keep_going=False):
     """make the given .vo targets (full .vo build).  Returns (ok, output)."""
     with Lock("coq"):
         coq_makefile()
-        rc, out = run(["timeout", str(timeout), "make", "-j%d" % NCPU] + targets, cwd=COQ, timeout=timeout + 30)
+        rc, out = run(["timeout", str(timeout), "make", "-j%d" % NCPU] + (["-k"] if keep_going else []) + targets,
+                      cwd=COQ, timeout=timeout + 30)
         return rc == 0, out
 
 
